@@ -676,7 +676,7 @@ func classes(c Case, m model, nonMonotone, ctxBetween bool) []string {
 func TestProp(t *testing.T) {
 	vt.Main(t, vt.Spec[Case]{
 		ID:           "C11",
-		Rule:         "rapid-generated cases: a correctable or server-stream correctable call (plain, per-node, custom return type, both) on 1-5 nodes; per node a reply / error / silence (streams: 0-4 individually gated replies, then failure, normal end or silence); a level script mapping the invocation index to (level 0..8, done) - arbitrary, non-monotone, repeated, done anywhere or nowhere; an optional cancellation at any position; Watch(l) channels created at generated moments; after every step the correctable is observed (Get, typed Get under recover, Done, all watchers) and compared with a reference model driven by the recorded quorum-function invocations: publish on strictly higher level, final on done / exhaustion / context end, watchers at or below the published level released and the others open, nothing changes after completion, levels never decrease; non-trivial = at least 2 distinct published levels before completion, or a non-monotone script, or a custom return type, or a context end between two publications",
+		Rule:         "rapid-generated cases: a correctable or server-stream correctable call (plain, per-node, custom return type, both) on 1-5 nodes; per node a reply / error / silence (streams: 0-4 individually gated replies, then failure, normal end or silence); a level script mapping the invocation index to (level 0..8, done) - arbitrary, non-monotone, repeated, done anywhere or nowhere; an optional cancellation at any position; in a quarter of the cases one node's server is stopped at a generated position (before it answered: the node has failed; after it answered: the call must not hear of the node again); Watch(l) channels created at generated moments; after every step the correctable is observed (Get, typed Get under recover, Done, all watchers) and compared with a reference model driven by the recorded quorum-function invocations: publish on strictly higher level, final on done / exhaustion / context end, watchers at or below the published level released and the others open, nothing changes after completion, levels never decrease; non-trivial = at least 2 distinct published levels before completion, or a non-monotone script, or a custom return type, or a context end between two publications",
 		Gen:          gen,
 		Run:          run,
 		TrackCurrent: true,
